@@ -38,7 +38,9 @@ Judge(a, e) ==
       byDefault == RespMatches(c, r.resp, e.resp) /\ r.st = b
       explained == byDefault \/ \E v \in Variants(a, c) : RespMatches(c, Apply(a, v).resp, e.resp) /\ Apply(a, v).st = b
       respOk == RespMatches(c, r.resp, e.resp) \/ \E v \in Variants(a, c) : RespMatches(c, Apply(a, v).resp, e.resp)
+      metaOnly == \E v \in Variants(a, c) : RespMatches(c, Apply(a, v).resp, e.resp) /\ StripMeta(Apply(a, v).st) = StripMeta(b)
   IN IF ~explained /\ ~respOk THEN "A_resp"
+     ELSE IF ~explained /\ metaOnly THEN "A_state_meta"
      ELSE IF ~explained THEN "A_state"
      ELSE IF ~StepTransitions(a, b, c) THEN "C01_Transitions"
      ELSE IF ~StepParamsFrozen(a, b, c) THEN "C01_ParamsFrozen"
